@@ -399,6 +399,11 @@ def run(ctx):
             cases.append(([a], [("d", "d", sep, [0] * 5)], values))
         for a, b in itertools.product(smalls, smalls):
             cases.append(([a, b], [("d", "d", sep, [0] * 5), ("d", "d", sep, [0] * 5)], values))
+    # descriptions that differ only in the case of quoted letters denote different characters (in one process, in this order)
+    for lo_, hi_ in ((97, 122), (65, 90), (120, 120), (88, 88), (71, 103), (103, 122)):
+        for dq in "01":
+            it_ = ("s", lo_) if lo_ == hi_ else ("c", lo_, hi_)
+            cases.append(([it_], [("q" + dq, "q" + dq, "d", [0] * 5)], [64, 65, 88, 90, 91, 96, 97, 103, 120, 122, 123]))
     n_exh = len(cases)
     n_rand = 4000 if ctx.tier == "quick" else 60000
     for _ in range(n_rand):
